@@ -19,6 +19,9 @@ use crate::PROTOCOL_VERSION;
 use crate::SendMode;
 use crate::udp_frame_sink::UdpFrameSink;
 
+#[cfg(uflow_verif)]
+use crate::verif::rand;
+
 static HANDSHAKE_RESEND_INTERVAL_MS: u64 = 2000;
 static HANDSHAKE_RESEND_COUNT: u8 = 10;
 
